@@ -94,7 +94,7 @@ def run(tier):
                 pos = hi + r.randint(0, 2)
             cases.append((e["tid"], items, [], {}))
     dec, nbad = lrcheck.correspond(PROP, rep, c, cases, make_judge(c), "c16")
-    lrcheck.report_cert_failures(PROP, rep, c, failing, bool(rep.viol))
+    lrcheck.report_cert_failures(PROP, rep, c, failing, bool(rep.viol), make_judge(c), r)
     rec = [(x, d) for x, d in zip(cases, dec) if d["kind"] == "ok" and err_nodes(d["tree"])]
     multi = sum(1 for x, d in rec if len(err_nodes(d["tree"])) > 1)
     dropped2 = sum(1 for x, d in rec if any(len(n["dropped"]) >= 2 for n in err_nodes(d["tree"])))
